@@ -9,6 +9,8 @@ OP1 = _P % 10                          # first operation pinned per process
 A1PIN = (_P // 10) % 10                # 1 + first operand (which held node / for prune: 1 + strict flag), 0 = symbolic
 OP2PIN = (_P // 100) % 10 - 1          # second operation pinned (digit - 1), -1 = symbolic
 DEPTH = 3 if _P >= 1000 else 2
+import os as _os
+A2RANGE = 8 if _os.environ.get("VERIF_BOUND") == "8" else 12     # quick tier: second operand over the first 8 held nodes
 NOPS = 9
 DOC = '<r xmlns:p="urn:p"><p:a x="1">t<!--c--><b/></p:a><c xml:lang="en">u</c></r>'
 
@@ -226,7 +228,7 @@ def h_history(a1: int, f1: bool, op2: int, a2: int, f2: bool, op3: int, a3: int,
     if r:
         return r
     op2 = OP2PIN if OP2PIN >= 0 else cint(op2, nops)
-    r = w.step(op2, cint(a2, 6 if DEPTH == 3 else 12) if op2 in need_a else 0, f2 if op2 in (3, 4, 7) else True)
+    r = w.step(op2, cint(a2, 6 if DEPTH == 3 else A2RANGE) if op2 in need_a else 0, f2 if op2 in (3, 4, 7) else True)
     if r or DEPTH < 3:
         return r
     op3 = cint(op3, nops)
